@@ -38,6 +38,9 @@ BUDGET = {
 }
 
 
+DET_RUNS = {'C15': {'quick': 400, 'thorough': 4000}, 'C20': {'quick': 120, 'thorough': 1500}}
+
+
 def cmd_setup():
     import numpy
     import numba
@@ -93,10 +96,10 @@ def cmd_digest(prop, start, count, tier):
     return 0
 
 
-def determinism_selftest(prop, tier, count, in_process_digests=None):
-    """Same runs, fresh interpreter, different PYTHONHASHSEED: event-log digests must be equal."""
+def determinism_start(prop, tier, count):
+    """Start the same `count` runs in two fresh interpreters with different PYTHONHASHSEED (they run
+    while the main batch runs; joined by determinism_join)."""
     import subprocess
-    res = {}
     procs = {}
     for hs in ('0', '4242'):
         env = dict(os.environ)
@@ -104,9 +107,16 @@ def determinism_selftest(prop, tier, count, in_process_digests=None):
         env['KNEESIM_HASHSEED'] = hs
         procs[hs] = subprocess.Popen([sys.executable, os.path.abspath(__file__), prop, '--digest', '0', str(count), '--tier', tier],
                                      env=env, stdout=subprocess.PIPE, stderr=subprocess.PIPE, text=True)
-    for hs, p in procs.items():
+    return {'procs': procs, 'count': count}
+
+
+def determinism_join(h):
+    """Event-log digests of the two interpreters must be equal, run by run."""
+    import subprocess
+    res = {}
+    for hs, p in h['procs'].items():
         try:
-            so, se = p.communicate(timeout=1800)
+            so, se = p.communicate(timeout=3600)
         except subprocess.TimeoutExpired:
             p.kill()
             raise core.HarnessError('digest subprocess timed out')
@@ -116,7 +126,7 @@ def determinism_selftest(prop, tier, count, in_process_digests=None):
         res[hs] = json.loads(line[0][8:])
     ok = res['0'] == res['4242']
     diff = [i for i, (a, b) in enumerate(zip(res['0'], res['4242'])) if a != b]
-    return {'runs': count, 'interpreters': 2, 'hashseeds': [0, 4242], 'identical': ok, 'first_diffs': diff[:5]}
+    return {'runs': h['count'], 'interpreters': 2, 'hashseeds': [0, 4242], 'identical': ok, 'first_diffs': diff[:5]}
 
 
 def worker_count_selftest(ad, tier, base, count):
@@ -141,11 +151,12 @@ def cmd_check(prop, tier, nruns_override=None, workers=None, selftest=True):
     kf = runner.load_known_findings()
     known = {k['key']: k for k in kf.get('known', []) if k.get('property') == prop}
     runner.KNOWN_KEYS = frozenset(known)
+    dh = determinism_start(prop, tier, DET_RUNS[prop][tier]) if selftest else None
     ad.prepare(tier)
     agg = runner.run_batch(ad, tier, base, nruns, workers, deadline)
     det = None
     if selftest:
-        det = determinism_selftest(prop, tier, 48 if tier == 'quick' else 400)
+        det = determinism_join(dh)
         if tier == 'thorough':
             det['worker_counts'] = worker_count_selftest(ad, tier, base, 600)
             det['identical'] = det['identical'] and det['worker_counts']['identical']
